@@ -714,13 +714,18 @@ class OutputSchemaBuilder(
                     )
 
                 args[self.aliaser(param_field.alias)] = arg_thunk
-        with self._not_flattened():
-            factory = self.visit_with_conv(
-                field.types["return"], field.resolver.conversion
-            )
         field_schema = get_method_schema(tp, field.resolver)
+
+        # Return type is visited lazily, because recursion through resolvers is not
+        # detected by the recursion guard of the visitor
+        def return_type() -> graphql.GraphQLOutputType:
+            with self._not_flattened():
+                return self.visit_with_conv(
+                    field.types["return"], field.resolver.conversion
+                ).type
+
         return lambda: graphql.GraphQLField(
-            factory.type,
+            return_type(),
             {name: arg() for name, arg in args.items()} if args else None,
             resolve,
             field.subscribe,
